@@ -25,18 +25,15 @@ class WrapDict(OrderedDict):
             yield k, v
 
     def keys(self):
-        for k in self._other.keys():
-            if k not in self._mine:
-                yield k
-
-        for k in self._mine.keys():
-            yield k
+        # a list, like the dictionaries of other files: callers take len()
+        return ([k for k in self._other.keys() if k not in self._mine] +
+                list(self._mine.keys()))
 
     def __len__(self):
         return len(self._mine) + len(self._other)
 
     def __iter__(self):
-        return self.keys()
+        return iter(self.keys())
 
     def __contains__(self, k):
         for myk in self.keys():
